@@ -52,46 +52,46 @@ section
 variable {s : SV} {d : QueryDoc} {P : Payload → Prop} {Q : Name → Prop}
 
 mutual
-  theorem walkValue_all (hP : ValSites s P) (cur : Option OperationDef) (exp : Option GType) (dfn : Option Definition) :
+  theorem walkValue_all (hv : ∀ v exp dfn, P (.value v exp dfn)) (cur : Option OperationDef) (exp : Option GType) (dfn : Option Definition) :
       ∀ (v : Value) (ws : WS), AllP P (walkValue s cur exp dfn v ws).2
     | .mk k raw ch p, ws => by
       unfold walkValue
       have h1 : ∀ ws1 : WS, AllP P (walkObjChildren s cur dfn ch ws1).2 :=
-        fun ws1 => walkObjChildren_all hP cur dfn ch ws1
+        fun ws1 => walkObjChildren_all hv cur dfn ch ws1
       have h2 : ∀ ws1 : WS, AllP P (walkListChildren s cur exp dfn ch ws1).2 :=
-        fun ws1 => walkListChildren_all hP cur exp dfn ch ws1
+        fun ws1 => walkListChildren_all hv cur exp dfn ch ws1
       cases k <;> simp only <;>
         first
-          | exact AllP.append (h1 _) (AllP.single (hP.value _ _ _))
-          | exact AllP.append (h2 _) (AllP.single (hP.value _ _ _))
-          | exact AllP.append AllP.nil (AllP.single (hP.value _ _ _))
-  theorem walkObjChildren_all (hP : ValSites s P) (cur : Option OperationDef) (dfn : Option Definition) :
+          | exact AllP.append (h1 _) (AllP.single (hv _ _ _))
+          | exact AllP.append (h2 _) (AllP.single (hv _ _ _))
+          | exact AllP.append AllP.nil (AllP.single (hv _ _ _))
+  theorem walkObjChildren_all (hv : ∀ v exp dfn, P (.value v exp dfn)) (cur : Option OperationDef) (dfn : Option Definition) :
       ∀ (ch : Children) (ws : WS), AllP P (walkObjChildren s cur dfn ch ws).2
     | .nil, ws => by simp [walkObjChildren, AllP]
     | .cons name v p rest, ws => by
       unfold walkObjChildren
-      exact AllP.append (walkValue_all hP cur _ _ v ws) (walkObjChildren_all hP cur dfn rest _)
-  theorem walkListChildren_all (hP : ValSites s P) (cur : Option OperationDef) (exp : Option GType) (dfn : Option Definition) :
+      exact AllP.append (walkValue_all hv cur _ _ v ws) (walkObjChildren_all hv cur dfn rest _)
+  theorem walkListChildren_all (hv : ∀ v exp dfn, P (.value v exp dfn)) (cur : Option OperationDef) (exp : Option GType) (dfn : Option Definition) :
       ∀ (ch : Children) (ws : WS), AllP P (walkListChildren s cur exp dfn ch ws).2
     | .nil, ws => by simp [walkListChildren, AllP]
     | .cons name v p rest, ws => by
       unfold walkListChildren
-      exact AllP.append (walkValue_all hP cur _ _ v ws) (walkListChildren_all hP cur exp dfn rest _)
+      exact AllP.append (walkValue_all hv cur _ _ v ws) (walkListChildren_all hv cur exp dfn rest _)
 end
 
-theorem walkArgs_all (hP : ValSites s P) (cur : Option OperationDef) (ad : Option (List ArgDef)) :
+theorem walkArgs_all (hv : ∀ v exp dfn, P (.value v exp dfn)) (cur : Option OperationDef) (ad : Option (List ArgDef)) :
     ∀ (as : List Argument) (ws : WS), AllP P (walkArgs s cur ad as ws).2
   | [], ws => by simp [walkArgs, AllP]
   | a :: rest, ws => by
     simp only [walkArgs]
-    exact AllP.append (walkValue_all hP cur _ _ a.value ws) (walkArgs_all hP cur ad rest _)
+    exact AllP.append (walkValue_all hv cur _ _ a.value ws) (walkArgs_all hv cur ad rest _)
 
 theorem walkDirectiveItems_all (hP : ValSites s P) (cur : Option OperationDef) (parent : Option Definition) (loc : Bytes) :
     ∀ (ds : List Directive) (ws : WS), AllP P (walkDirectiveItems s cur parent loc ds ws).2
   | [], ws => by simp [walkDirectiveItems, AllP]
   | dir :: rest, ws => by
     simp only [walkDirectiveItems]
-    exact AllP.append (walkArgs_all hP cur _ dir.args ws)
+    exact AllP.append (walkArgs_all hP.value cur _ dir.args ws)
       (AllP.cons (hP.directive dir parent loc) (walkDirectiveItems_all hP cur parent loc rest _))
 
 theorem walkDirectives_all (hP : ValSites s P) (cur : Option OperationDef) (parent : Option Definition) (ds : List Directive)
@@ -115,7 +115,7 @@ mutual
         injection h with h
         subst h
         have hb := walkSelections_all hP cur J hJ sub _ _ r3 (by simpa [Spec.spreadsOfSel] using hx) h3
-        exact AllP.append (AllP.append (AllP.append (walkArgs_all hP.toValSites cur _ args _) (walkDirectives_all hP.toValSites cur _ dirs _ _)) hb)
+        exact AllP.append (AllP.append (AllP.append (walkArgs_all hP.value cur _ args _) (walkDirectives_all hP.toValSites cur _ dirs _ _)) hb)
           (AllP.single (hP.field _ _ _))
     | .inline tc dirs sub p, parent, ws, r, hx, h => by
       unfold walkSelection at h
@@ -192,7 +192,7 @@ theorem walkVarDefsB_all (hP : ValSites s P) (cur : Option OperationDef) :
     refine AllP.append (AllP.append ?_ (walkDirectives_all hP cur _ v.dirs _ _)) (walkVarDefsB_all hP cur rest _)
     cases v.default with
     | none => exact AllP.nil
-    | some dv => exact walkValue_all hP cur _ _ dv ws
+    | some dv => exact walkValue_all hP.value cur _ _ dv ws
 
 end
 
